@@ -801,7 +801,7 @@ func (s *State) extendFunctionEnv(
 		pval := object.Value(args[paramIdx])
 		needVariable := true
 		// Constant-named parameters always go through the checking setter below, never a register.
-		if !s.NoReg && pval.Type() == object.INTEGER && !object.Constant(param.Value().Literal()) {
+		if !s.NoReg && pval.Type() == object.INTEGER && !object.Constant(param.Value().Literal()) && env.HasRegisters() {
 			// We will release all these registers just by returning/dropping the env.
 			_, nbody, ok := setupRegister(env, param.Value().Literal(), pval.(object.Integer).Value, newBody)
 			if ok {
@@ -942,7 +942,7 @@ func (s *State) evalForInteger(fe *ast.ForExpression, start *int64, end int64, n
 	var register object.Register
 	newBody = fe.Body
 	// A constant-named loop variable is never a register: it goes through the checking setter like with NoReg.
-	useReg := name != "" && !s.NoReg && !object.Constant(name)
+	useReg := name != "" && !s.NoReg && !object.Constant(name) && s.env.HasRegisters()
 	if useReg {
 		var ok bool
 		register, newBody, ok = setupRegister(s.env, name, int64(startValue), fe.Body)
